@@ -76,6 +76,7 @@ def check(run, tier):
     r2 = rng("C06-config")
     for dev in ("evo", "fluent"):
         progs += targeted.config_programs(dev)
+        progs += [p for p in targeted.round2_programs(dev) if "mix-in-place" in p["id"]]
     for i in range(40 if q else 1000):
         dev = "evo" if i % 2 == 0 else "fluent"
         progs.append(programs.worklist_program(r2, f"C06/c{i}", dev, r2.randint(3, 7), maxunits=40, wlmax=r2.choice([3, 7, 10]),
